@@ -38,8 +38,8 @@ claimed = {
          "Decides the contract with mvs.Downgrade (Previous answers \"none\", never the empty root version: found and fixed F5; root returned unchanged by Upgrade/Previous), that every existing name of a retained project is kept and only new projects get fresh names, that a fresh name is stored only after a failed lookup of that name, and that requesting the selected version is a no-op.",
          "Build-list relations after tidy/upgrade/downgrade and query resolution are behavioural (library + VCS) and not decided."),
  "C12": ("sanitiser-on-every-flow taint slices in target(), must-facts on the cleaned path in the sanitiser, shape extraction of the record path, key-origin check of the label-keyed tables (go/ssa)",
-         "Decides the confinement clause and the identity plumbing only: every sources/generates path reaches the file system through repoSourcePath/sourceLabel, which cleans first and rejects '..'/'../' on the cleaned value it returns; record paths are work/<kind>s/<one URL-escaped package+name component>; Project.targets/modules are keyed only by (*Label).String().",
-         "NOT decided: print/parse round trip, canonicity and panic-freedom of label.Parse/Clean for all strings (behavioural / needs relational bounds reasoning)."),
+         "Decides the confinement clause, the identity plumbing and (later rules, listed below) canonicity by construction and index/slice safety of package label: every sources/generates path reaches the file system through repoSourcePath/sourceLabel, which cleans first and rejects '..'/'../' on the cleaned value it returns; record paths are work/<kind>s/<one URL-escaped package+name component>; Project.targets/modules are keyed only by (*Label).String().",
+         "Canonicity is decided as canonical-by-construction (R12.6, R12.10) and panic-freedom by a difference-bound abstract interpretation of package label (R12.7); the round trip as observed is not executed."),
  "C13": ("effect confinement: must-facts on the dry-run flag for every effectful call site, mutator reachability through the static in-module closure of the up-to-date checks, constant-result check of evaluate implementations",
          "Decides that the body and every record write are on the not-dry-run edge, that the checks that run in dry runs reach no file-system/process mutator, that the dry branch marks changed+succeeded as every real successful evaluation does, that the flag is assigned on every path of RunOptions.apply, and that evaluating is reported before the dry-run test independent of it.",
          "Trusts go/ssa and the mutator table. Effects of user Starlark code are confined by skipping the body, which is what is checked."),
@@ -57,7 +57,7 @@ claimed = {
          "Trusts go/ssa and Go's regexp engine/parser; recognises the strings.Builder emission idiom (other idioms are reported undecided); paths contain no newline; [ ] pass-through frozen as outside the property's wording."),
  "C18": ("typestate dataflow over the CFG of (*runTarget).Evaluate, who-may-emit rules, dominance for run-done and flush",
          "Decides on every path the event protocol of one evaluation (up-to-date | evaluating·succeeded | evaluating·failed | failed | silent only when a dependency failed), body only between evaluating and the terminal event, success never on an error edge, target events only from Evaluate, run-done exactly once after the runner with the returned error, flush deferred first in evaluate.",
-         "Trusts go/ssa. Line reassembly for all chunkings and cross-target interleaving are behavioural and not decided."),
+         "Trusts go/ssa. Line reassembly is decided structurally (R18.5: the chunk is only cut at its first newline, the rest becomes the next chunk, one delivery per newline); cross-target interleaving is not decided."),
  "C19": ("table agreement between struct tags and the hand-written writer's format strings, encoder-on-every-value flow check, edge facts on the bare-key branch, constant extraction of the bare-key alphabet (go/ssa + go/types)",
          "Decides that every toml-tagged field is written under its tag key, that requirements are written in sorted order, that every value goes through the TOML encoder, and that a requirement name is written bare only when non-empty (found and fixed F12) and made of A-Za-z0-9_-.",
          "That go-toml decodes what its encoder produces for every string is library behaviour and not decided."),
@@ -73,6 +73,19 @@ checks = []
 for pid in props:
     if pid in claimed:
         tech, text, note = claimed[pid][:3]
+        # the rule list of the current checker (from the evidence the checker itself wrote) is authoritative for what is
+        # decided; the hand-written summary above only introduces it
+        try:
+            ev = json.load(open(f'/verif/evidence/{pid}.json'))
+            expl = ev['coverage']['explanation']
+            i = expl.index('DECIDED (')
+            j = expl.index('NOT DECIDED')
+            decided = expl[expl.index(':', i) + 1:j].strip().rstrip('.')
+            notdec = expl[expl.index(':', j) + 1:].strip().rstrip('.')
+            text = text + " Rules decided by the current checker: " + decided + "."
+            note = note + " Not decided: " + notdec + "."
+        except Exception as e:
+            pass
         checks.append({
             "property_id": pid,
             "quick_cmd": f"./run.sh {pid} quick",
